@@ -19,6 +19,7 @@ import (
 	"math"
 	"os"
 	"strings"
+	"time"
 
 	"verif/lib/dbh"
 	"verif/lib/kvseq"
@@ -195,11 +196,16 @@ func main() {
 			p.Add("conc:"+k, v)
 		}
 		// (a)
+		start, budget := time.Now(), r.Remaining()
 		for ci, c := range cfgs {
 			prm := params(c, fmt.Sprintf("%s/s%d-c%d", base, sh.Index, ci), true)
 			sub := vr.NewPartial()
+			// time slicing: configuration i may run until (i+1)/n of the remaining budget is used, so
+			// a slow early configuration cannot starve the later ones (unused time carries over)
+			slice := start.Add(budget * time.Duration(ci+1) / time.Duration(len(cfgs)))
+			expired := func() bool { return r.Expired() || time.Now().After(slice) }
 			seqmc.Explore(seqmc.Config{New: func() seqmc.Instance { return kvseq.New(prm) }, MaxDepth: c.Depth,
-				Shard: sh, Expired: r.Expired}, sub)
+				Shard: sh, Expired: expired}, sub)
 			for i := range sub.Violations {
 				v := &sub.Violations[i]
 				if !confirmSeq(c, fmt.Sprintf("%s/s%d-c%d-confirm", base, sh.Index, ci), v, reruns(i)) {
@@ -207,6 +213,9 @@ func main() {
 				}
 				v.Replay = fmt.Sprintf(`{"Config":%q,"Path":%s}`, c.Name, v.Replay)
 				v.Desc = "config=" + c.Name + " " + v.Desc
+			}
+			if sub.TimedOut {
+				p.Add("incomplete:"+c.Name, 1)
 			}
 			p.Merge(sub)
 		}
@@ -264,7 +273,8 @@ func main() {
 		Bounds: map[string]any{"sequential_configs": names(cfgs), "concurrency_scenarios": scenNames(scens),
 			"value_threshold": threshold, "vlog_file_size": vlogFileSize, "quick": r.Quick()},
 		Extra: map[string]any{"pruned_by_state_key": total.Counters["pruned"], "noop_cut": total.Counters["cut_noop"],
-			"replayed_steps": total.Counters["replayed_steps"], "max_depth": total.Counters["max_depth"],
+			"incomplete_configs_workers": opCounts(total, "incomplete:"),
+			"replayed_steps":             total.Counters["replayed_steps"], "max_depth": total.Counters["max_depth"],
 			"ops_applied": ops, "concurrency": conc},
 		Assumptions: []string{"background compaction paused and driven by the harness through the real doCompact; flush worker gated",
 			"a GC run that returns an error (e.g. the sampled key is deleted) is an implementation-only failure, counted but not judged; the read oracle still runs",
@@ -374,6 +384,12 @@ func replaySeq(r *vr.Run, cfgs []config, name string, path []string) {
 		for i, op := range path {
 			if _, err := in.Apply(op); err != nil {
 				vr.Fatalf("replay step %d %q: %v", i, op, err)
+			}
+			if os.Getenv("VERIF_SHAPE") != "" { // debugging aid: LSM shape after every replayed step
+				fmt.Printf("replay: after step %d (%s):\n%s", i, op, in.(*kvseq.Inst).H.DB.VerifLSM().VerifShape(true))
+			}
+			if os.Getenv("VERIF_CHECK_LAST_ONLY") != "" && i < len(path)-1 {
+				continue // as the explorer does when it rebuilds a state: no reads between the steps
 			}
 			if sig, desc := in.Check(); sig != "" {
 				fmt.Printf("replay: violation after step %d (%s): %s\n", i, op, desc)
